@@ -29,7 +29,7 @@ def admission(path, keys, hdrs):
 def run(tier, seed, replay):
     rep = vf.Report("C19", tier, seed)
     L = 3 if tier == "thorough" else 2
-    rep.rule = ("every callback program up to length %d over 31 operations on the handed jwt_t (typed gets with right and wrong types, gets of absent names, JSON gets, jwt_get_alg; delete/replace exp, nbf, iss, sub, aud, all claims, incl. replacements that keep the serialised length; header members crit/typ/kid/cty/jwk/x5c; "
+    rep.rule = ("every callback program up to length %d over 33 operations on the handed jwt_t (typed gets with right and wrong types, gets of absent names, JSON gets, jwt_get_alg; delete/replace exp, nbf, iss, sub, aud, all claims, incl. replacements that keep the serialised length; header members crit/typ/kid/cty/jwk/x5c; "
                 "delete/replace the alg header, all headers) x 32 claim policies x 29 tokens (passing, failing exactly one check or the "
                 "signature; HS256, ES256, unsigned; empty payloads; payloads of 4-70 KiB whose checked claims lie beyond the first 4/64 KiB) x provider is compared with the callback-free twin at a fixed clock; every 7th program "
                 "also returns non-zero (positive and negative values) and must fail; a third of the cells verify the same token a second time on the same checker; callback-selected key/alg cells of the policy matrix "
